@@ -72,6 +72,9 @@ def classify(diags, meta):
         sec = [s for s in spans if not s.get('is_primary')]
 
         def m_of(span):
+            fname = str(span.get('file_name', ''))
+            if not (fname.endswith('dev.rs') or 'minimq_verus' in fname):
+                return None
             ln = span['line_start'] - 1
             return meta[ln] if 0 <= ln < len(meta) else None
         rec = {'message': msg, 'rendered': d.get('rendered', ''), 'line': prim[0]['line_start'] if prim else None}
@@ -81,6 +84,18 @@ def classify(diags, meta):
             for s in spans:
                 if 'failed this postcondition' in (s.get('label') or ''):
                     cl = m_of(s)
+            if cl is None:
+                # postcondition declared outside the generated file (a vstd trait spec): attribute
+                # the failure to the function whose body it was checked on
+                for s in spans:
+                    mm = m_of(s)
+                    if mm and 'fn' in mm:
+                        rec.update(fn=mm['fn'], kind='safety', clause='safety', tags=None)
+                        failures.append(rec)
+                        break
+                else:
+                    fatal.append(d)
+                continue
             if cl and cl.get('part') == 'ensures':
                 rec.update(fn=cl['fn'], kind='post', clause=cl['clause'], tags=cl.get('tags', []))
                 failures.append(rec)
